@@ -293,6 +293,8 @@ def items(tier):
     yield ("init", (("a", "b", "c", "d", "e"), (("a", "b"), ("c", "d", "e")), 1, 1, 1, 5))
     # two consecutive samples from one generator, with chain moves in between (state carried from one sample to the next)
     for es in (((2, 5), (5, 7, 11)), ((2, 5), (7, 11)), ((2, 5, 7), (7, 11))):
+        if tier == "quick" and es == ((2, 5), (7, 11)):
+            continue  # two disjoint pairs: > 2e4 executions for two samples - thorough tier only
         yield ("init", (labels, es, 0, 1, 2, 4))
     # a hyperedge containing every node of the model (size N)
     yield ("init", (labels, ((2, 5, 7, 11), (2, 5)), 0, 1, 1, 4))
